@@ -1,5 +1,6 @@
 import SoundeventModel.Ops.Common
 import SoundeventModel.Crowsetta
+import SoundeventModel.CrowsettaHist
 namespace SE.Ops.C10
 open Lean SE SE.Crowsetta
 
@@ -149,8 +150,29 @@ def defaultsJ (d : Defaults) : Json :=
     ("seq_ignore", boolJ d.seqIgnore), ("box_cast", boolJ d.boxCast), ("box_raise_time", boolJ d.boxRaiseTime),
     ("ann_ignore", boolJ d.annIgnore), ("ann_cast", boolJ d.annCast), ("adjust", boolJ d.adjust)]
 
-def handle (op : String) (a : Json) : Except String Json := do
+/-- one event of a tag history: {"call": {"opts": …, "labels": […]}} | {"edit": [k, a, "value"]} -/
+def getEv (j : Json) : Except String Hist.Ev :=
+  match fldOpt j "call", fldOpt j "edit" with
+  | some c, _ => do
+    let o ← optsOf c getLabelOpts
+    if !Hist.ownTags o then throw "tag_history: tag_fn / tag_mapping hand back the caller's own objects (outside the store model)"
+    return .call o (← (← fldArr c "labels").mapM jStr)
+  | none, some e => do
+    match ← getArr e with
+    | [k, a, v] => return .edit (← k.getNat?) (← a.getNat?) (← v.getStr?)
+    | _ => throw "edit must be [k, a, value]"
+  | none, none => .error "expected {call} or {edit}"
+
+def sigJ (s : Sig) : Json := Json.mkObj [("fn", Json.str s.fn), ("params", arrJ (s.params.map Json.str))]
+
+def handleBase (op : String) (a : Json) : Except String Json := do
   match op with
+  | "signatures" => return arrJ (signatures.map sigJ)
+  | "tag_history" =>
+    -- the store semantics (fresh tag objects per call, in-place edits): after every event, what the caller
+    -- reads from every result so far (`C10_history_value_semantics`: equal to the value semantics)
+    let evs ← (← fldArr a "events").mapM getEv
+    return Json.mkObj [("trace", arrJ ((Hist.trace evs).map (fun rs => arrJ (rs.map (optJ tagsJ)))))]
   | "term_key" =>
     let t := termFromKey (← fldStr a "key")
     return Json.mkObj [("term", termJ t), ("key", Json.str (keyFromTerm t))]
@@ -225,5 +247,10 @@ def handle (op : String) (a : Json) : Except String Json := do
 where
   exOpts (a : Json) : Except String TagsOpts :=
     getTagsOpts ((fldOpt a "export_opts").getD (Json.mkObj []))
+
+/-- `step`: one step of a history, `{"op": <base operation>, "inp": <its input>}` - the model is pure, so a step
+    of a history is judged by the base operation on the content the objects carry at that step -/
+def handle (op : String) (a : Json) : Except String Json :=
+  if op = "step" then do handleBase (← fldStr a "op") (← fld a "inp") else handleBase op a
 
 end SE.Ops.C10
